@@ -246,6 +246,38 @@ def replay_shift(a):
     return None
 
 
+def long_case(which, n):
+    """very long keying material / info at whole numbers of MiB and of 10^6 bytes (buffer sizes people pick)"""
+    H = _h()
+    big = (bytes(range(256)) * (n // 256 + 1))[:n]
+    if which == "extract-ikm":
+        return ("ok", M.extract(b"salt", big)), _norm(_call(H.hkdf_extract, b"salt", big))
+    if which == "extract-salt":
+        return ("ok", M.extract(big, b"ikm")), _norm(_call(H.hkdf_extract, big, b"ikm"))
+    if which == "expand-info":
+        return ("ok", M.expand(bytes(32), big, 48)), _norm(_call(H.hkdf_expand, bytes(32), big, 48))
+    S = getattr(importlib.import_module("py_ecc.bls"), "G2Basic")
+    return ("ok", M.keygen(big, b"")), _call(S.KeyGen, big, b"")
+
+
+def task_long(a, env):
+    r = R("hkdf:very-long-inputs")
+    for which in a["whiches"]:
+        for n in a["ns"]:
+            exp, got = long_case(which, n)
+            r.ev += 1
+            r.dk.add((which, n))
+            if exp != got:
+                r.viol("C16:%s:very-long-input" % which, ME + ":replay_long", {"which": which, "n": n}, exp, got, note="%d bytes" % n)
+    r.sample({"lengths": a["ns"][:6], "inputs": a["whiches"]})
+    return r
+
+
+def replay_long(a):
+    exp, got = long_case(a["which"], a["n"])
+    return None if exp == got else {"expected": exp, "observed": got}
+
+
 def task_sweep(a, env):
     r = R("anchors-again-after-n-distinct-inputs")
     for i, (lbl, exp, got) in enumerate(shift_cases()):
@@ -313,6 +345,12 @@ def run(ctx):
                                  "prklen": prklen}))
     tasks.append(("mutated", {}))
     tasks.append(("sweep", {"n": 1200 if q else 20000}))
+    mib = [k << 20 for k in range(1, 11)] + [k * 10 ** 6 for k in (1, 2, 5)] + [(6 << 20) - 1, (6 << 20) + 1, (3 << 20) - 1, 3 << 19, 65536, 65535]
+    for i, wh in enumerate(("extract-ikm", "extract-salt", "expand-info", "keygen-ikm")):
+        ns = mib if wh in ("extract-ikm", "keygen-ikm") else mib[::2]
+        if wh == "keygen-ikm":
+            ns = sorted(set(ns + [n - 1 for n in mib[:10]]))  # KeyGen appends one byte
+        tasks.append(("long", {"whiches": [wh], "ns": ns if q else ns + [k << 20 for k in (12, 15, 16, 20)]}))
     for si, suite in enumerate(("G2Basic", "G2MessageAugmentation", "G2ProofOfPossession")):
         lis = list(range(0, 129)) if (si == 0 or not q) else [0, 1, 31, 32, 33, 64, 128]
         lks = list(range(0, 65)) if (si == 0 or not q) else [0, 1, 32, 64]
